@@ -38,3 +38,27 @@ Example C03_ex :
   drain 30 false fb_init (mk_xport [Data [129]; Timeout; Data [2]; Data [72]; Timeout; Timeout; Data [105]])
   = drain 30 false fb_init (mk_xport [Data [129; 2; 72; 105]]).
 Proof. vm_compute. reflexivity. Qed.
+
+From WS Require Import Base.GenPrelude Spec.Stream Model.Xport Model.Conn Proofs.ConnSpec Proofs.WsDrainSpec Proofs.WsDrainProof Proofs.WsDrainSeg.
+
+(* END TO END on the connection object: two scripts that carry the same bytes -- cut into segments anywhere, with receive
+   timeouts anywhere (the caller retries) -- give the caller the same sequence of observations and make the client write the
+   same replies. *)
+Theorem C03_end_to_end : forall fire skip control l1 l2 ks1 ks2,
+  script_ok l1 = true -> no_reset l1 = true -> bytes_ok (flatten l1) -> keys_enough ks1 l1 ->
+  script_ok l2 = true -> no_reset l2 = true -> keys_enough ks2 l2 ->
+  flatten l1 = flatten l2 ->
+  fst (ws_drain (drain_fuel l1) control (ws_init (mk_xport l1) ks1 fire skip)) =
+  fst (ws_drain (drain_fuel l2) control (ws_init (mk_xport l2) ks2 fire skip)).
+Proof. exact ws_drain_segmentation_independent. Qed.
+Print Assumptions C03_end_to_end.
+
+Theorem C03_end_to_end_writes : forall fire skip control l1 l2 ks,
+  script_ok l1 = true -> no_reset l1 = true -> bytes_ok (flatten l1) -> keys_enough ks l1 ->
+  script_ok l2 = true -> no_reset l2 = true ->
+  flatten l1 = flatten l2 ->
+  writes_of (all_io (snd (ws_drain (drain_fuel l1) control (ws_init (mk_xport l1) ks fire skip)))) =
+  writes_of (all_io (snd (ws_drain (drain_fuel l2) control (ws_init (mk_xport l2) ks fire skip)))).
+Proof. exact ws_drain_writes_segmentation_independent. Qed.
+Print Assumptions C03_end_to_end_writes.
+
